@@ -7,10 +7,12 @@
 (* on the ideal codec for exactly the cases it then exports for replay      *)
 (* into the real generated code (Export prints one JSON line per case).     *)
 (***************************************************************************)
-EXTENDS WireUniverse, Json
+EXTENDS WireUniverse, AsIs, Json
 
 CONSTANTS OptMode,     \* "default": only the empty option set; "cover": OptMasks
-          ValMode      \* "all": every value of the root; "first": one value (schema x option universes)
+          ValMode,     \* "all": every value of the root; "first": one value (schema x option universes);
+                       \* "few": the first three values
+          Muts         \* "none" | "layout": export the structure-aware corruptions of each encoding (C07)
 
 VARIABLES sid, vi, oi
 
@@ -31,7 +33,9 @@ Next == \/ /\ sid = 0
            /\ sid' \in 1..NSchemas
            /\ UNCHANGED <<vi, oi>>
         \/ /\ sid > 0 /\ vi = 0
-           /\ vi' \in 1..(IF ValMode = "first" THEN 1 ELSE Len(Vals(S, RootT)))
+           /\ vi' \in 1..(IF ValMode = "first" THEN 1
+                           ELSE IF ValMode = "few" /\ Len(Vals(S, RootT)) > 3 THEN 3
+                           ELSE Len(Vals(S, RootT)))
            /\ oi' \in 1..NOpts
            /\ UNCHANGED sid
 
@@ -50,6 +54,16 @@ RoundTrip == IsCase => LET r == DecTop(S, RootT, E) IN
 
 PrefixIsError == IsCase => \A k \in 0..(Len(E) - 1) : ~DecTop(S, RootT, SubSeq(E, 1, k)).ok
 
+\* the ideal decoder is total on every corruption (and, by construction, never
+\* "allocates" a count it has not checked against the remaining input)
+Inputs == IF Muts = "layout" THEN Mutations(E, Lay(S, RootT, V)) ELSE <<>>
+\* what the as-is model predicts for each input (used to run only a sample of the
+\* inputs that are known to run away: each costs a watchdog timeout or an OOM kill)
+AllAllocDevs == {"alloc_before_check:arr", "alloc_before_check:map", "stream_trusts_count"}
+PredByte == [i \in 1..Len(Inputs) |-> AsIsByteFailure(AllAllocDevs, S, RootT, Inputs[i])]
+PredStream == [i \in 1..Len(Inputs) |-> AsIsStreamFailure(AllAllocDevs, S, RootT, Inputs[i])]
+DecTotal == IsCase => \A i \in 1..Len(Inputs) : DecTop(S, RootT, Inputs[i]).ok \in BOOLEAN
+
 \* every pair of options sees all four on/off combinations in PairwiseMasks
 PairwiseCovers ==
   \A i, j \in 1..5 : i < j =>
@@ -65,5 +79,6 @@ Export ==
                                       ctx |-> CtxOf(sid), ft |-> ShapeOf(sid).t]))
   /\ IsCase => PrintT("@@CASE " \o ToJson([sid |-> sid, vi |-> vi, opts |-> OptSetOfMask(MaskOf(oi)),
                                  mask |-> MaskOf(oi), root |-> "Root",
-                                 v |-> V, enc |-> E, lay |-> Lay(S, RootT, V)]))
+                                 v |-> V, enc |-> E, lay |-> Lay(S, RootT, V), inputs |-> Inputs,
+                                 predb |-> PredByte, preds |-> PredStream]))
 =============================================================================
